@@ -4,32 +4,10 @@ the invariant `Good`, the frame `Post` between two states, and the character-lev
 -/
 import JPV.Peg.RunGo
 import JPV.Props.PegRuntimeGen
+import JPV.Lemmas.RunGoAdds
 namespace JPV
 namespace RunGoGen
 open JPV.Peg JPV.Peg.Runtime JPV.Gen.PegRuntime JPV.Peg.RunGo JPV.PegRuntimeGen
-
-/-- an upper bound, computed on the SPEC side, for the number of `add` calls the templates perform while
-`Peg.run g f e input pos` is evaluated (calls inside alternatives that fail later are counted too). It bounds how
-far `tokenIndex` can travel, so that `tokenIndex + adds … < 2^32` keeps the uint32 arithmetic of `add` exact. -/
-def adds (g : Grammar) : Nat → PE → Array Char → Nat → Nat
-  | 0, _, _, _ => 0
-  | _ + 1, .lit _, _, _ => 0
-  | _ + 1, .cls _ _, _, _ => 0
-  | _ + 1, .any, _, _ => 0
-  | f + 1, .seq a b, i, p =>
-    adds g f a i p + (match run g f a i p with | .ok p' _ => adds g f b i p' | _ => 0)
-  | f + 1, .alt a b, i, p =>
-    adds g f a i p + (match run g f a i p with | .fail => adds g f b i p | _ => 0)
-  | f + 1, .star a, i, p =>
-    adds g f a i p + (match run g f a i p with | .ok p' _ => adds g f (.star a) i p' | _ => 0)
-  | f + 1, .plus a, i, p =>
-    adds g f a i p + (match run g f a i p with | .ok p' _ => adds g f (.star a) i p' | _ => 0)
-  | f + 1, .opt a, i, p => adds g f a i p
-  | f + 1, .not a, i, p => adds g f a i p
-  | f + 1, .and a, i, p => adds g f a i p
-  | f + 1, .rule name, i, p => adds g f (ruleBody g name) i p + 1
-  | f + 1, .cap a, i, p => adds g f a i p + 1
-  | _ + 1, .act _, _, _ => 1
 
 /-- the numbering separates named rules, Action0, PegText, Action1… -/
 structure Num.WF (n : Num) : Prop where
@@ -39,20 +17,26 @@ structure Num.WF (n : Num) : Prop where
 /-- the runes of the input, as `[]rune(string)` decodes them -/
 def runes (input : Array Char) : List Nat := input.toList.map Char.toNat
 
-/-- the invariant of the runtime state, memoisation OFF -/
-structure Good (input : Array Char) (s : RT) : Prop where
+/-- what the invariant says about the memo table and the switch `disableMemoize` (the only parts of the state the
+character / token templates never touch) -/
+abbrev MemP := List (Key × Memo) → Bool → Prop
+
+/-- memoisation OFF: the switch is set and the table stays empty -/
+def MOff : MemP := fun memo d => d = true ∧ memo = []
+
+/-- the invariant of the runtime state, generic in the memo part -/
+structure Good (M : MemP) (input : Array Char) (s : RT) : Prop where
   buf : s.buffer = runes input ++ [endSymbol]
   inv : s.tokenIndex ≤ s.tree.length
-  off : s.disableMemoize = true
-  nomemo : s.memo = []
+  mem : M s.memo s.disableMemoize
 
 /-- tokens `tree[t0 : tokenIndex]` -/
 def seg (t0 : Nat) (s : RT) : List Runtime.Tok := (s.tree.take s.tokenIndex).drop t0
 
 /-- what a template may have done between s and s': tokens below the entry tokenIndex untouched, tokenIndex moved
 up by at most k -/
-structure Post (input : Array Char) (s s' : RT) (k : Nat) : Prop where
-  good : Good input s'
+structure Post (M : MemP) (input : Array Char) (s s' : RT) (k : Nat) : Prop where
+  good : Good M input s'
   pre : s'.tree.take s.tokenIndex = s.tree.take s.tokenIndex
   lo : s.tokenIndex ≤ s'.tokenIndex
   hi : s'.tokenIndex ≤ s.tokenIndex + k
@@ -73,7 +57,7 @@ theorem runes_lt (input : Array Char) : ∀ r ∈ runes input, r ≠ endSymbol :
 theorem runes_length (input : Array Char) : (runes input).length = input.size := by simp [runes]
 
 /-- `buffer[position]` in a good state -/
-theorem bufAt {input : Array Char} {s : RT} (h : Good input s) (hp : s.position ≤ input.size) :
+theorem bufAt {M : MemP} {input : Array Char} {s : RT} (h : Good M input s) (hp : s.position ≤ input.size) :
     getAt s.buffer s.position = some (match input[s.position]? with | some c => c.toNat | none => endSymbol) := by
   unfold getAt
   rw [h.buf]
@@ -84,31 +68,31 @@ theorem bufAt {input : Array Char} {s : RT} (h : Good input s) (hp : s.position 
     rw [he, List.getElem?_append_right (by rw [runes_length]; omega), runes_length]
     simp
 
-theorem Post.refl {input : Array Char} {s : RT} (h : Good input s) (k : Nat) : Post input s s k :=
+theorem Post.refl {M : MemP} {input : Array Char} {s : RT} (h : Good M input s) (k : Nat) : Post M input s s k :=
   ⟨h, rfl, Nat.le_refl _, Nat.le_add_right _ _⟩
 
-theorem Post.mono {input : Array Char} {s s' : RT} {k k' : Nat} (h : Post input s s' k) (hk : k ≤ k') : Post input s s' k' :=
+theorem Post.mono {M : MemP} {input : Array Char} {s s' : RT} {k k' : Nat} (h : Post M input s s' k) (hk : k ≤ k') : Post M input s s' k' :=
   ⟨h.good, h.pre, h.lo, Nat.le_trans h.hi (Nat.add_le_add_left hk _)⟩
 
 /-- moving `position` only -/
-theorem Good.setPos {input : Array Char} {s : RT} (h : Good input s) (q : Nat) : Good input { s with position := q } :=
-  ⟨h.buf, h.inv, h.off, h.nomemo⟩
+theorem Good.setPos {M : MemP} {input : Array Char} {s : RT} (h : Good M input s) (q : Nat) : Good M input { s with position := q } :=
+  ⟨h.buf, h.inv, h.mem⟩
 
-theorem Post.setPos {input : Array Char} {s s' : RT} {k : Nat} (h : Post input s s' k) (q : Nat) :
-    Post input s { s' with position := q } k :=
+theorem Post.setPos {M : MemP} {input : Array Char} {s s' : RT} {k : Nat} (h : Post M input s s' k) (q : Nat) :
+    Post M input s { s' with position := q } k :=
   ⟨h.good.setPos q, h.pre, h.lo, h.hi⟩
 
 theorem seg_setPos (t0 : Nat) (s : RT) (q : Nat) : seg t0 { s with position := q } = seg t0 s := rfl
 
-theorem seg_self {input : Array Char} {s : RT} (_h : Good input s) : seg s.tokenIndex s = [] := by
+theorem seg_self {M : MemP} {input : Array Char} {s : RT} (_h : Good M input s) : seg s.tokenIndex s = [] := by
   unfold seg
   apply List.drop_eq_nil_of_le
   rw [List.length_take]; exact Nat.min_le_left _ _
 
 /-- `position, tokenIndex = p0, t0` at a failure label -/
-theorem Post.restore {input : Array Char} {s s1 : RT} {k : Nat} (h : Post input s s1 k) (k' : Nat) :
-    Post input s (restore s.position s.tokenIndex s1) k' := by
-  refine ⟨⟨h.good.buf, ?_, h.good.off, h.good.nomemo⟩, h.pre, Nat.le_refl _, Nat.le_add_right _ _⟩
+theorem Post.restore {M : MemP} {input : Array Char} {s s1 : RT} {k : Nat} (h : Post M input s s1 k) (k' : Nat) :
+    Post M input s (restore s.position s.tokenIndex s1) k' := by
+  refine ⟨⟨h.good.buf, ?_, h.good.mem⟩, h.pre, Nat.le_refl _, Nat.le_add_right _ _⟩
   show s.tokenIndex ≤ s1.tree.length
   exact Nat.le_trans h.lo h.good.inv
 
@@ -126,8 +110,8 @@ theorem take_drop_split {α} (l : List α) (t0 t1 t2 : Nat) (h01 : t0 ≤ t1) (h
   rw [List.drop_append_of_le_length]
   rw [List.length_take]; omega
 
-theorem Post.trans {input : Array Char} {s s1 s2 : RT} {k1 k2 : Nat} (h1 : Post input s s1 k1) (h2 : Post input s1 s2 k2) :
-    Post input s s2 (k1 + k2) ∧ seg s.tokenIndex s2 = seg s.tokenIndex s1 ++ seg s1.tokenIndex s2 := by
+theorem Post.trans {M : MemP} {input : Array Char} {s s1 s2 : RT} {k1 k2 : Nat} (h1 : Post M input s s1 k1) (h2 : Post M input s1 s2 k2) :
+    Post M input s s2 (k1 + k2) ∧ seg s.tokenIndex s2 = seg s.tokenIndex s1 ++ seg s1.tokenIndex s2 := by
   have hpre : s2.tree.take s.tokenIndex = s.tree.take s.tokenIndex := by
     have e1 : s2.tree.take s.tokenIndex = (s2.tree.take s1.tokenIndex).take s.tokenIndex := by
       rw [List.take_take, Nat.min_eq_left h1.lo]
@@ -141,13 +125,13 @@ theorem Post.trans {input : Array Char} {s s1 s2 : RT} {k1 k2 : Nat} (h1 : Post 
 
 /-! ## add -/
 
-theorem add_post {input : Array Char} (r b : Nat) {s : RT} (h : Good input s) (hb : s.tokenIndex + 1 < 4294967296) :
-    ∃ s', add r b s = some s' ∧ Post input s s' 1 ∧ s'.position = s.position ∧
+theorem add_post {M : MemP} {input : Array Char} (r b : Nat) {s : RT} (h : Good M input s) (hb : s.tokenIndex + 1 < 4294967296) :
+    ∃ s', add r b s = some s' ∧ Post M input s s' 1 ∧ s'.position = s.position ∧
       seg s.tokenIndex s' = [⟨r, b, s.position⟩] := by
   obtain ⟨mx, he⟩ := PR_add_eq r b s h.inv hb
   have hl : (List.take s.tokenIndex s.tree).length = s.tokenIndex := by
     rw [List.length_take]; exact Nat.min_eq_left h.inv
-  refine ⟨_, he, ⟨⟨h.buf, ?_, h.off, h.nomemo⟩, ?_, Nat.le_succ _, Nat.le_refl _⟩, rfl, ?_⟩
+  refine ⟨_, he, ⟨⟨h.buf, ?_, h.mem⟩, ?_, Nat.le_succ _, Nat.le_refl _⟩, rfl, ?_⟩
   · show s.tokenIndex + 1 ≤ (s.tree.take s.tokenIndex ++ [(⟨r, b, s.position⟩ : Runtime.Tok)] ++ s.tree.drop (s.tokenIndex + 1)).length
     simp only [List.length_append, hl, List.length_singleton]; omega
   · show (s.tree.take s.tokenIndex ++ [(⟨r, b, s.position⟩ : Runtime.Tok)] ++ s.tree.drop (s.tokenIndex + 1)).take s.tokenIndex = _
@@ -203,7 +187,7 @@ theorem inRangesN_end (rs : List (Char × Char)) : inRangesN endSymbol rs = fals
     simp [inRangesN, ih, h]
 
 /-- `.` -/
-theorem dot_spec {input : Array Char} {s : RT} (h : Good input s) (hp : s.position ≤ input.size)
+theorem dot_spec {M : MemP} {input : Array Char} {s : RT} (h : Good M input s) (hp : s.position ≤ input.size)
     (hn : input.size + 1 < 4294967296) :
     dotGo s = if s.position < input.size then (.ok, { s with position := s.position + 1 }) else (.fail, s) := by
   have := PR_matchDot s (runes input) h.buf (runes_lt input) (by rw [runes_length]; exact hp) (by omega)
@@ -214,8 +198,8 @@ theorem dot_spec {input : Array Char} {s : RT} (h : Good input s) (hp : s.positi
   · simp [hlt]
 
 /-- a literal: on success position moves by its length; on failure only position may have moved -/
-theorem lit_spec {input : Array Char} (hn : input.size + 1 < 4294967296) (cs : List Char) :
-    ∀ s : RT, Good input s → s.position ≤ input.size →
+theorem lit_spec {M : MemP} {input : Array Char} (hn : input.size + 1 < 4294967296) (cs : List Char) :
+    ∀ s : RT, Good M input s → s.position ≤ input.size →
       if matchLit input cs s.position then
         litGo cs s = (.ok, { s with position := s.position + cs.length }) ∧ s.position + cs.length ≤ input.size
       else ∃ q, litGo cs s = (.fail, { s with position := q }) := by
